@@ -96,7 +96,7 @@ func (d *driver) fetchSub(s scen, rt *project.RepTruth, trex *mp4.TrexBox, url s
 	loopMS := rt.L * 1000 / rt.TS
 	r := d.env.S.Get(url)
 	e := tr.E{"ev": "sub", "k": n / N, "i": n % N, "st": r.Status, "url": url, "nrp": []int64{0, 0}, "tfdt": []int64{0, 0}, "dur": 0,
-		"cues": []any{}, "samples": []any{}, "regdefs": []string{}, "ph": -1, "nsamp": 0, "nfrag": 0, "perr": ""}
+		"cues": []any{}, "samples": []any{}, "regdefs": []string{}, "ph": -1, "base": "", "nsamp": 0, "nfrag": 0, "perr": ""}
 	res := subResult{ev: e}
 	if r.Status != 200 {
 		return res
@@ -118,6 +118,7 @@ func (d *driver) fetchSub(s scen, rt *project.RepTruth, trex *mp4.TrexBox, url s
 	base := floorDiv(utc, 1000)
 	res.ph = utc - base*1000
 	e["ph"] = res.ph
+	e["base"] = fmt.Sprint(base) // floor(U/1000) as a string (exceeds 32 bits; used only to classify failures)
 	var total int64
 	var cues []any
 	var samples []any
